@@ -19,6 +19,13 @@ class AstToSqlVisitor(visitor.NodeVisitor):
         super().__init__()
         self.table_alias = table_alias
 
+    def generic_visit(self, node: ast._Node):
+        ":meta private:"
+        # Every node that can be expressed in SQL has its own visitor method.
+        # Anything else (paths, lambdas, named parameters, some literals)
+        # must be refused instead of silently becoming ``None``:
+        raise exceptions.TypeException("SQL", type(node).__name__)
+
     def visit_Identifier(self, node: ast.Identifier) -> str:
         ":meta private:"
         # Double quotes for column names acc SQL Standard
